@@ -84,7 +84,7 @@ func Info(v string) VInfo {
 type HopSpec struct {
 	Form    string          `json:"form,omitempty"`   // "" = default for the position
 	From    string          `json:"from,omitempty"`   // responder address override
-	DelayUs int             `json:"delay_us,omitempty"` // 0 = default
+	DelayUs int             `json:"delay_us,omitempty"` // 0 = default; <0 = no latency at all
 	Silent  bool            `json:"silent,omitempty"`
 	LostReply bool          `json:"lost_reply,omitempty"` // the probe reached the responder but its reply was lost
 	AtTarget bool           `json:"at_target,omitempty"` // the target itself answers this probe (destination form by default)
@@ -93,6 +93,9 @@ type HopSpec struct {
 	Tag     string          `json:"tag,omitempty"`
 	Truncate int            `json:"truncate,omitempty"` // deliver only the first n bytes
 	Mutate  []ByteMut       `json:"mutate,omitempty"`
+	// ForwardDelayUs: the probe itself takes this long to reach the responder, so probes sent later may reach it first
+	// (reordering on the forward path); the responder's state (SACK scoreboard) is updated on arrival
+	ForwardDelayUs int `json:"forward_delay_us,omitempty"`
 	// AliasTTL: the perturbed per-probe identifier is the identifier of this other probe of the same run;
 	// if that probe has been sent when the packet is built, the packet is a genuine reply to it
 	AliasTTL int `json:"alias_ttl,omitempty"`
@@ -217,6 +220,7 @@ type Script struct {
 	Scns   []*Scn // by flow: a probe is attributed to the scenario whose target/kind match and (for several) whose sink matches
 	bySink map[int]*Scn
 	held   map[int][]uint8      // sink -> SACK segments held by the target (most recent first)
+	arriving bool               // OnProbe is being run for a probe whose forward delay has elapsed
 	Seen   map[int]map[int]*refcodec.Packet // sink -> ttl -> probe
 	Sent   map[int][]Delivered
 	initSeq map[int]uint32
@@ -365,9 +369,24 @@ func finish(raw []byte, trunc int, mut []ByteMut) []byte {
 	return raw
 }
 
+type fnFire func()
+
+func (f fnFire) Fire() { f() }
+
 func (s *Script) OnProbe(n *simnet.Net, sink *simnet.Sink, p *refcodec.Packet, raw []byte) []simnet.Reply {
 	sc := s.scnFor(sink, p)
 	if sc == nil {
+		return nil
+	}
+	if hs, ok := sc.Hops[int(p.TTL)]; ok && hs.ForwardDelayUs > 0 && !s.arriving {
+		vsched.AddTimer(vsched.Now()+int64(hs.ForwardDelayUs)*1000, fnFire(func() {
+			s.arriving = true
+			rs := s.OnProbe(n, sink, p, raw)
+			s.arriving = false
+			for _, r := range rs {
+				n.Schedule(r)
+			}
+		}))
 		return nil
 	}
 	vi := Info(sc.Variant)
@@ -419,6 +438,8 @@ func (s *Script) OnProbe(n *simnet.Net, sink *simnet.Sink, p *refcodec.Packet, r
 		delay := hs.DelayUs
 		if delay == 0 {
 			delay = DefaultDelayUs(t)
+		} else if delay < 0 {
+			delay = 0 // the reply is on the capture handle when the send call returns (loopback, same host)
 		}
 		if b, err := simnet.Build(form, p, from, ctx); err == nil {
 			genuine := hs.Perturb == nil && hs.Truncate == 0 && len(hs.Mutate) == 0
